@@ -188,7 +188,7 @@ Sample(cmd) == /\ cmd.op = "Sample" /\ bld.fmt = DataFmt
                /\ wtml' = [wtml EXCEPT !.cur = FALSE]
                /\ UNCHANGED out
 
-\* the cheap tests for the two deviations (DeviationGuards states that they are exact):
+\* the cheap tests for the two deviations (CascadeOperator / TransformOperator state that they are exact):
 \* some tile above the start level has no descendant left on the start level
 StaleAbove(dir, s) == \E p \in Pos : p[1] < s /\ dir[p].ex /\ ~\E l \in Level(s) : InSub(l, p) /\ dir[l].ex
 \* some output tile on the transformed levels has no data tile any more
